@@ -33,7 +33,8 @@ CLAIMED.update({
         "text": "Theorem len_eq: for EVERY schema and EVERY value (no well-typedness hypothesis) the model of __len__ (_len_single, _len_preprocessed_single, "
                 "written separately, branch for branch) returns the length of what the model of dump writes, and raises exactly when dump raises; "
                 "dump(SIZE_DELIMITED) = canonical varint of that length ++ bytes(m), which the decoder reads back as the body length. Proved by structural "
-                "induction over field lists / items / map entries. The model's dump/len are tied to the code by the correspondence run.",
+                "induction over field lists / items / map entries. The model's dump/len are tied to the code by the correspondence run. "
+                "TIED TO THE SOURCE BY TRANSLATION (Props/C09Src): size_varint against encode_varint, the key of every wire-type branch of _len_single against the key _serialize_single writes, and the emitting branch of a length-delimited field are re-translated from the Python AST on every run (BpProofs/Gen/SrcCodec.lean) and proved to agree pairwise for every field number and payload.",
         "note": TB + "dump(BytesIO) == bytes(m) and SerializeToString == bytes are one-line delegations in the code: checked by the oracle, not modelled separately.",
         "technique": "Lean 4 proof (structural induction, two independently written walks related lemma by lemma) + differential correspondence",
         "design_ref": "DESIGN.md §7 C09",
@@ -64,7 +65,8 @@ CLAIMED.update({
                 "records before it) or rejected with EOFError; field number 0 and wire types 3/4/6/7 are rejected wherever the tag stands; a known number with an unfitting wire type "
                 "only appends its raw bytes to the unknown fields (no value, selection or presence changes); wireFits agrees with the regenerated WIRE_TYPE_BY_PROTO_TYPE table for every type; "
                 "ok_welltyped: for every well-formed schema (decidable WfSchemaT) and EVERY byte string, whatever parse returns holds in every slot, at every nesting level, a value of the field's declared "
-                "Python type (MsgTyped, decidable), and ok_reencodes: it can be encoded again (induction on the decoder's nesting fuel with a typed-state invariant of the fold).",
+                "Python type (MsgTyped, decidable), and ok_reencodes: it can be encoded again (induction on the decoder's nesting fuel with a typed-state invariant of the fold). "
+                "TIED TO THE SOURCE BY TRANSLATION (Props/C17Src): load_fields (the framing generator of every decode path, run to the end) and _read_exact are re-translated from the Python AST on every run and proved EQUAL to the model loadFields on every byte string (same records, whole input consumed, same exception, termination); src_midfield_prefix_rejected, src_invalid_tag_rejected, src_accepted_is_wellformed are theorems about the code as written.",
         "note": TB + "ok_reencodes carries WfBytes (every list element < 256), an artefact of modelling bytes as List Nat (shown necessary by a decided witness); the link between WfSchemaT and what the plugin can emit is argued, not proved.",
         "technique": "Lean 4 proof (induction over the record list, truncation lemmas for varints/payloads) + differential correspondence on mutated encodings",
         "design_ref": "DESIGN.md §7 C17",
